@@ -28,6 +28,17 @@ TM_KW = {"vertices": [[0, 0, 0], [1, 0, 0], [0, 1, 0], [0, 0, 1]], "faces": [[0,
          "polarization": [0, 0, 1]}
 
 
+_SCRIBBLE = []  # caller-owned mutable values handed to the library in the current call
+
+
+def own(v):
+    """a caller-owned copy of a value; lists are remembered and overwritten after the call"""
+    v = copy.deepcopy(v)
+    if isinstance(v, list):
+        _SCRIBBLE.append(v)
+    return v
+
+
 def nest_items(items):
     out = {}
     for leaf, v in items:
@@ -35,7 +46,7 @@ def nest_items(items):
         parts = leaf.split("_")
         for p in parts[:-1]:
             d = d.setdefault(p, {})
-        d[parts[-1]] = copy.deepcopy(v)
+        d[parts[-1]] = own(v)
     return out
 
 
@@ -208,7 +219,7 @@ class C20Session(Session):
     # ---------------------------------------------------------------- executing writes
     def _write_obj(self, o, items, notation):
         if notation == "magic_update":
-            o.style.update(**{leaf: copy.deepcopy(v) for leaf, v in items})
+            o.style.update(**{leaf: own(v) for leaf, v in items})
         elif notation == "nested_update":
             d = nest_items(items)
             keep = copy.deepcopy(d)
@@ -224,7 +235,7 @@ class C20Session(Session):
                     tgt = getattr(tgt, p)
                 if not hasattr(type(tgt), parts[-1]) and not hasattr(tgt, parts[-1]):
                     raise AttributeError(parts[-1])
-                setattr(tgt, parts[-1], copy.deepcopy(v))
+                setattr(tgt, parts[-1], own(v))
         elif notation == "assign_dict":
             d = nest_items(items)
             keep = copy.deepcopy(d)
@@ -233,19 +244,19 @@ class C20Session(Session):
                 raise Violation("caller_dict_mutated", "obj.style = dict changed the caller's dict", op="obj_set",
                                 notation=notation)
         elif notation == "assign_magic_dict":
-            o.style = {leaf: copy.deepcopy(v) for leaf, v in items}
+            o.style = {leaf: own(v) for leaf, v in items}
         else:
             raise HarnessError(notation)
 
     def _construct(self, cls, items, notation):
         kw = dict(TM_KW) if cls == "TriangularMesh" else {}
         if notation == "ctor_magic":
-            kw.update({"style_" + leaf: copy.deepcopy(v) for leaf, v in items})
+            kw.update({"style_" + leaf: own(v) for leaf, v in items})
         elif notation == "ctor_dict":
             kw["style"] = nest_items(items)
         elif notation == "ctor_mixed":
             kw["style"] = nest_items(items[:1])
-            kw.update({"style_" + leaf: copy.deepcopy(v) for leaf, v in items[1:]})
+            kw.update({"style_" + leaf: own(v) for leaf, v in items[1:]})
         else:
             raise HarnessError(notation)
         o = cls_of(cls)(**kw)
@@ -257,11 +268,11 @@ class C20Session(Session):
 
         style = self._settings().display.style
         if notation == "fam_update":
-            getattr(style, fam).update(**{leaf: copy.deepcopy(v) for leaf, v in items})
+            getattr(style, fam).update(**{leaf: own(v) for leaf, v in items})
         elif notation == "style_update_nested":
             magpy.defaults.display.style.update({fam: nest_items(items)})
         elif notation == "style_update_magic":
-            magpy.defaults.display.style.update(**{f"{fam}_{leaf}": copy.deepcopy(v) for leaf, v in items})
+            magpy.defaults.display.style.update(**{f"{fam}_{leaf}": own(v) for leaf, v in items})
         elif notation == "attr":
             for leaf, v in items:
                 tgt = getattr(style, fam)
@@ -270,7 +281,7 @@ class C20Session(Session):
                     tgt = getattr(tgt, p)
                 if not hasattr(type(tgt), parts[-1]):
                     raise AttributeError(parts[-1])
-                setattr(tgt, parts[-1], copy.deepcopy(v))
+                setattr(tgt, parts[-1], own(v))
         elif notation == "display_update":
             magpy.defaults.display.update(style={fam: nest_items(items)})
         else:
@@ -280,19 +291,20 @@ class C20Session(Session):
         import magpylib as magpy
 
         if notation == "update":
-            magpy.defaults.display.update(**{leaf: copy.deepcopy(v) for leaf, v in items})
+            magpy.defaults.display.update(**{leaf: own(v) for leaf, v in items})
         elif notation == "attr":
             for leaf, v in items:
                 tgt = magpy.defaults.display
                 parts = leaf.split("_")
                 for p in parts[:-1]:
                     tgt = getattr(tgt, p)
-                setattr(tgt, parts[-1], copy.deepcopy(v))
+                setattr(tgt, parts[-1], own(v))
         else:
             raise HarnessError(notation)
 
     def _guard(self, fn):
         """run a library call; -> 'ok' | 'raised:<Type>'"""
+        _SCRIBBLE.clear()
         try:
             with warnings.catch_warnings(), contextlib.redirect_stdout(io.StringIO()):
                 warnings.simplefilter("ignore")
@@ -302,6 +314,11 @@ class C20Session(Session):
             raise
         except Exception as e:
             return "raised:" + type(e).__name__
+        finally:
+            # the caller re-uses its mutable values (lists) after the call: must not reach into any style
+            for lst in _SCRIBBLE:
+                lst.append("scribbled-by-caller")
+            _SCRIBBLE.clear()
 
     # ---------------------------------------------------------------- invalid variants
     def _invalid_variants(self, op):
